@@ -311,7 +311,11 @@ def run(ctx, rep):
                     flag = None
                     for k, x in origins(b, rv["ops"][0]):
                         if k == "ref":
-                            flag = (place_fields(x["p"])[-1:] or [b.local_name(x["p"]["l"])])[0]
+                            flag = ([f_ for f_ in place_fields(x["p"]) if f_] [-1:] or [b.local_name(x["p"]["l"])])[0]
+                            if b.kind == "Closure" and flag not in pairs_expected:
+                                cs = capture_source(F, b, x["p"])       # a flag of the enclosing function, captured by reference
+                                if cs and cs[1] is not None:
+                                    flag = ([f_ for f_ in place_fields(cs[1]) if f_][-1:] or [cs[0].local_name(cs[1]["l"])])[0]
                     errv = [x.get("var") for k, x in origins(b, rv["ops"][1]) if k == "agg" and x.get("adt") == "Error"]
                     kinds = {x[0] for x in kind_facts(pf.get(bi, TOP) if pf.get(bi, TOP) is not TOP else None)}
                     n += 1
